@@ -31,30 +31,50 @@ theorem bump_ne (c : UInt32) : (bump c == c) = false := by
   have := c.toNat_lt
   omega
 
+theorem atMax_iff (c : UInt32) : atMax c = true ↔ c.toNat = 2^32 - 1 := by
+  unfold atMax
+  constructor
+  · intro h; have := (beq_iff_eq.mp h); subst this; rfl
+  · intro h; apply beq_iff_eq.mpr; apply UInt32.toNat_inj.mp; simpa using h
+
+theorem not_atMax (c : UInt32) (h : atMax c = false) : c.toNat + 1 < 2^32 := by
+  have hlt := c.toNat_lt
+  have : c.toNat ≠ 2^32 - 1 := by intro he; have := (atMax_iff c).mpr he; simp [h] at this
+  omega
+
 theorem accepts_iff (w : Bool) (my : Nat) (c : UInt32) (fr : Bool) (s n : Nat) (t : Bool) :
     accepts w my c fr s n t = true ↔ (fr = w ∧ s = my ∧ n = c.toNat ∧ t = false) := by
   simp [accepts, and_assoc]
 
-theorem handleRequest_acc (d : Device) (fr : Bool) (s n : Nat) (p : Payload) (t : Bool)
+theorem handleRequest_acc (d : Device) (fr : Bool) (s n : Nat) (p : Payload) (t : Bool) (hm : atMax d.decCtr = false)
     (h : accepts true d.sess (bump d.decCtr) fr s n t = true) :
     (d.handleRequest (.ct fr s n p t)).2 = .accepted p := by
-  simp only [Device.handleRequest, h, if_true]
+  simp only [Device.handleRequest, hm, h, if_true, Bool.false_eq_true, if_false]
   cases p <;> rfl
 
-theorem handleRequest_rej (d : Device) (fr : Bool) (s n : Nat) (p : Payload) (t : Bool)
+theorem handleRequest_rej (d : Device) (fr : Bool) (s n : Nat) (p : Payload) (t : Bool) (hm : atMax d.decCtr = false)
     (h : accepts true d.sess (bump d.decCtr) fr s n t = false) :
     d.handleRequest (.ct fr s n p t) = ({ d with decCtr := bump d.decCtr }, .decryptionError) := by
-  simp [Device.handleRequest, h]
+  simp [Device.handleRequest, hm, h]
 
-theorem handleResponse_acc (r : Reader) (fr : Bool) (s n : Nat) (p : Payload) (t : Bool)
+/-- with the receive counter used up every ciphertext is refused and nothing changes -/
+theorem handleRequest_exhausted (d : Device) (fr : Bool) (s n : Nat) (p : Payload) (t : Bool) (hm : atMax d.decCtr = true) :
+    d.handleRequest (.ct fr s n p t) = (d, .decryptionError) := by
+  simp [Device.handleRequest, hm]
+
+theorem handleResponse_acc (r : Reader) (fr : Bool) (s n : Nat) (p : Payload) (t : Bool) (hm : atMax r.decCtr = false)
     (h : accepts false r.sess (bump r.decCtr) fr s n t = true) :
     r.handleResponse (.ct fr s n p t) = ({ r with decCtr := bump r.decCtr }, .accepted p) := by
-  simp [Reader.handleResponse, h]
+  simp [Reader.handleResponse, hm, h]
 
-theorem handleResponse_rej (r : Reader) (fr : Bool) (s n : Nat) (p : Payload) (t : Bool)
+theorem handleResponse_rej (r : Reader) (fr : Bool) (s n : Nat) (p : Payload) (t : Bool) (hm : atMax r.decCtr = false)
     (h : accepts false r.sess (bump r.decCtr) fr s n t = false) :
     r.handleResponse (.ct fr s n p t) = ({ r with decCtr := bump r.decCtr }, .decryptionError) := by
-  simp [Reader.handleResponse, h]
+  simp [Reader.handleResponse, hm, h]
+
+theorem handleResponse_exhausted (r : Reader) (fr : Bool) (s n : Nat) (p : Payload) (t : Bool) (hm : atMax r.decCtr = true) :
+    r.handleResponse (.ct fr s n p t) = (r, .decryptionError) := by
+  simp [Reader.handleResponse, hm]
 
 /-- encryption counters and the per-direction ghost log -/
 def World.encCtr (w : World) (r : Bool) : UInt32 := if r then w.rdr.encCtr else w.dev.encCtr
@@ -62,26 +82,42 @@ def World.dirLog (w : World) (r : Bool) : List (Bool × UInt32 × Bytes) :=
   w.log.filter (fun e => e.1 == r)
 
 theorem finalize_encCtr (d : Device) :
-    d.finalizeIfComplete.encCtr = d.encCtr ∨ d.finalizeIfComplete.encCtr = bump d.encCtr := by
+    d.finalizeIfComplete.encCtr = d.encCtr ∨ (atMax d.encCtr = false ∧ d.finalizeIfComplete.encCtr = bump d.encCtr) := by
   unfold Device.finalizeIfComplete
   split
-  · right; rfl
+  · split
+    · left; rfl
+    · rename_i h; right; exact ⟨by simpa using h, rfl⟩
   · left; rfl
 
+@[simp] theorem finalize_decCtr (d : Device) : d.finalizeIfComplete.decCtr = d.decCtr := by
+  unfold Device.finalizeIfComplete
+  split
+  · split <;> rfl
+  · rfl
+
+@[simp] theorem finalize_sess (d : Device) : d.finalizeIfComplete.sess = d.sess := by
+  unfold Device.finalizeIfComplete
+  split
+  · split <;> rfl
+  · rfl
+
 theorem handleRequest_encCtr (d : Device) (m : Msg) :
-    (d.handleRequest m).1.encCtr = d.encCtr ∨ (d.handleRequest m).1.encCtr = bump d.encCtr := by
+    (d.handleRequest m).1.encCtr = d.encCtr ∨ (atMax d.encCtr = false ∧ (d.handleRequest m).1.encCtr = bump d.encCtr) := by
   cases m with
   | garbage => left; rfl
   | noData => left; rfl
   | ct fr s n p t =>
     simp only [Device.handleRequest]
     split
-    · cases p
-      · left; rfl
-      · exact finalize_encCtr _
-      · exact finalize_encCtr _
-      · exact finalize_encCtr _
     · left; rfl
+    · split
+      · cases p
+        · left; rfl
+        · exact finalize_encCtr _
+        · exact finalize_encCtr _
+        · exact finalize_encCtr _
+      · left; rfl
 
 theorem handleResponse_encCtr (r : Reader) (m : Msg) : (r.handleResponse m).1.encCtr = r.encCtr := by
   cases m with
@@ -89,28 +125,30 @@ theorem handleResponse_encCtr (r : Reader) (m : Msg) : (r.handleResponse m).1.en
   | noData => rfl
   | ct fr s n p t =>
     simp only [Reader.handleResponse]
-    split <;> rfl
+    split
+    · rfl
+    · split <;> rfl
 
 theorem retrieve_encCtr (d : Device) : (d.retrieve).1.encCtr = d.encCtr := by
   unfold Device.retrieve; split <;> rfl
 
 theorem prepare_encCtr (d : Device) (docs : List Nat) :
-    (d.prepare docs).encCtr = d.encCtr ∨ (d.prepare docs).encCtr = bump d.encCtr :=
+    (d.prepare docs).encCtr = d.encCtr ∨ (atMax d.encCtr = false ∧ (d.prepare docs).encCtr = bump d.encCtr) :=
   finalize_encCtr _
 
 theorem submit_encCtr (d : Device) (sig : Nat) :
-    (d.submit sig).encCtr = d.encCtr ∨ (d.submit sig).encCtr = bump d.encCtr := by
+    (d.submit sig).encCtr = d.encCtr ∨ (atMax d.encCtr = false ∧ (d.submit sig).encCtr = bump d.encCtr) := by
   unfold Device.submit
   split
   · exact finalize_encCtr _
   · left; rfl
 
-/-- The invariant behind C07: as long as fewer than 2^32 messages were encrypted in a direction,
-that direction's counter equals the number of encryptions so far and the k-th encryption used
-exactly the ISO IV with counter k+1. -/
+/-- The invariant behind C07 — for EVERY reachable state: a direction's counter equals the number
+of encryptions made in that direction so far, and the k-th encryption used exactly the ISO IV with
+counter k+1.  (No bound on the history is needed: `encrypt` refuses at `u32::MAX`, so the counter
+never wraps and at most 2^32 - 1 encryptions ever happen in a direction.) -/
 def LogOk (w : World) : Prop :=
-  ∀ r, (w.dirLog r).length < 2^32 →
-    (w.encCtr r).toNat = (w.dirLog r).length ∧
+  ∀ r, (w.encCtr r).toNat = (w.dirLog r).length ∧
     ∀ k, k < (w.dirLog r).length →
       (w.dirLog r)[k]? = some (r, UInt32.ofNat (k+1), isoIv r (k+1))
 
@@ -121,8 +159,9 @@ theorem LogOk_of_same (w w' : World) (hl : w'.log = w.log) (hr : w'.rdr.encCtr =
   have e2 : w'.encCtr r = w.encCtr r := by cases r <;> simp [World.encCtr, hr, hd]
   rw [e1, e2]; exact h r
 
-/-- appending one encryption in direction `r` made with the counter of that direction -/
-theorem LogOk_of_enc (w w' : World) (r : Bool)
+/-- appending one encryption in direction `r` made with the counter of that direction, which was
+not used up -/
+theorem LogOk_of_enc (w w' : World) (r : Bool) (hm : atMax (w.encCtr r) = false)
     (hl : w'.log = w.log ++ [(r, bump (w.encCtr r), ivOf r (w.encCtr r))])
     (hc : w'.encCtr r = bump (w.encCtr r)) (ho : w'.encCtr (!r) = w.encCtr (!r))
     (h : LogOk w) : LogOk w' := by
@@ -132,10 +171,9 @@ theorem LogOk_of_enc (w w' : World) (r : Bool)
     have e1 : w'.dirLog r' = w.dirLog r' ++ [(r', bump (w.encCtr r'), ivOf r' (w.encCtr r'))] := by
       simp [World.dirLog, hl, List.filter_append]
     rw [e1, hc]
-    intro hlen
-    simp only [List.length_append, List.length_singleton] at hlen
-    obtain ⟨hctr, hk⟩ := h r' (by omega)
-    have hb : (bump (w.encCtr r')).toNat = (w.encCtr r').toNat + 1 := bump_toNat _ (by omega)
+    obtain ⟨hctr, hk⟩ := h r'
+    have hnm := not_atMax _ hm
+    have hb : (bump (w.encCtr r')).toNat = (w.encCtr r').toNat + 1 := bump_toNat _ hnm
     refine ⟨by simp [hb, hctr], ?_⟩
     intro k hklt
     simp only [List.length_append, List.length_singleton] at hklt
@@ -151,7 +189,7 @@ theorem LogOk_of_enc (w w' : World) (r : Bool)
         simp
         omega
       · unfold ivOf
-        rw [gen_iv_snd _ _ (by omega), hctr]
+        rw [gen_iv_snd _ _ hnm, hctr]
   · have hne : (r == r') = false := by cases r <;> cases r' <;> simp_all
     have e1 : w'.dirLog r' = w.dirLog r' := by
       simp [World.dirLog, hl, List.filter_append, hne]
@@ -161,15 +199,15 @@ theorem LogOk_of_enc (w w' : World) (r : Bool)
     rw [e1, e2]; exact h r'
 
 theorem LogOk_withDev (w : World) (d : Device)
-    (h : d.encCtr = w.dev.encCtr ∨ d.encCtr = bump w.dev.encCtr) (hl : LogOk w) : LogOk (w.withDev d) := by
+    (h : d.encCtr = w.dev.encCtr ∨ (atMax w.dev.encCtr = false ∧ d.encCtr = bump w.dev.encCtr)) (hl : LogOk w) : LogOk (w.withDev d) := by
   unfold World.withDev
   split
   · rename_i heq
     exact LogOk_of_same w _ rfl rfl (by simpa using heq) hl
   · rename_i hne
-    rcases h with hs | hs
+    rcases h with hs | ⟨hm, hs⟩
     · exact absurd (by simp [hs]) hne
-    · apply LogOk_of_enc w _ false _ _ _ hl
+    · apply LogOk_of_enc w _ false (by simpa [World.encCtr] using hm) _ _ _ hl
       · simp [World.encCtr, hs]
       · simp [World.encCtr, hs]
       · simp [World.encCtr]
@@ -177,10 +215,13 @@ theorem LogOk_withDev (w : World) (d : Device)
 theorem LogOk_step (w : World) (op : Op) (h : LogOk w) : LogOk (w.step op) := by
   cases op with
   | newRequest =>
-    apply LogOk_of_enc w _ true _ _ _ h
-    · simp [World.step, Reader.newRequest, World.encCtr]
-    · simp [World.step, Reader.newRequest, World.encCtr]
-    · simp [World.step, Reader.newRequest, World.encCtr]
+    cases hm : atMax w.rdr.encCtr with
+    | true => simpa [World.step, Reader.newRequest, hm] using h
+    | false =>
+      apply LogOk_of_enc w _ true (by simpa [World.encCtr] using hm) _ _ _ h
+      · simp [World.step, Reader.newRequest, World.encCtr, hm]
+      · simp [World.step, Reader.newRequest, World.encCtr, hm]
+      · simp [World.step, Reader.newRequest, World.encCtr, hm]
   | handleRequest m => exact LogOk_withDev w _ (handleRequest_encCtr _ _) h
   | prepare docs => exact LogOk_withDev w _ (prepare_encCtr _ _) h
   | getNext => exact h
@@ -198,7 +239,7 @@ theorem LogOk_run (w : World) (ops : List Op) (h : LogOk w) : LogOk (w.run ops) 
   | cons op ops ih => exact ih _ (LogOk_step w op h)
 
 theorem LogOk_established (s : Nat) : LogOk (World.established s) := by
-  intro r _
+  intro r
   cases r
   · simp [World.established, World.dirLog, World.encCtr]
   · simp only [World.established, World.dirLog, World.encCtr]
